@@ -14,19 +14,29 @@ pub struct C14;
 const NAMES: [&str; 3] = ["n1", "n1x", "n3.example"];
 /// certificate kinds an adversary can present: one per network name, then a certificate without
 /// any subject alternative name and one with an IP-address entry only
-const CERT_KINDS: usize = 5;
+const CERT_KINDS: usize = 8;
 
 fn cert_label(c: usize) -> &'static str {
     match c {
         0..=2 => NAMES[c],
         3 => "<no name at all>",
-        _ => "<an IP address only>",
+        4 => "<an IP address only>",
+        5 => "<the unknown network zz, with subject common name n1>",
+        6 => "<no alternative name, subject common name n1x>",
+        _ => "<n3.example, with subject common name N1>",
     }
 }
 
 fn adversary_identity(c: usize) -> Identity {
     if c < 3 {
         Identity::honest(7, NAMES[c])
+    } else if c >= 5 {
+        let cert = match c {
+            5 => crate::certs::ed25519_cert_with_cn(7, Some("zz"), "n1"),
+            6 => crate::certs::ed25519_cert_with_cn(7, None, "n1x"),
+            _ => crate::certs::ed25519_cert_with_cn(7, Some("n3.example"), "N1"),
+        };
+        Identity { chain: vec![cert], signer: Some(crate::adversary::signing_key(&crate::adversary::ed25519_pkcs8(7))) }
     } else {
         Identity { chain: vec![crate::certs::ed25519_cert_nameless(7, c == 4)], signer: Some(crate::adversary::signing_key(&crate::adversary::ed25519_pkcs8(7))) }
     }
@@ -184,7 +194,9 @@ fn judge(unit: &Value, o: &Obs) -> Judged {
             let sni = unit["sni"].as_str().unwrap();
             let c = unit["cert_name"].as_u64().unwrap() as usize;
             let sni_ok = NAMES.iter().position(|n| *n == sni).map(|i| accepts(l, i)).unwrap_or(false);
-            let expect = sni_ok && c < 3 && accepts(l, c);
+            // what counts is the subject alternative name: kind 7 is a certificate for n3.example
+            let san = match c { 0..=2 => Some(c), 7 => Some(2), _ => None };
+            let expect = sni_ok && san.map(|n| accepts(l, n)).unwrap_or(false);
             let admitted = o.events_listener.iter().any(|e| e.starts_with("New")) || o.adversary_got_ack == Some(true);
             let ctx = format!("[listener primary {} alt {:?}; adversary claims SNI {sni:?} with a certificate for {}]", NAMES[l.0], l.1.map(|a| NAMES[a]), cert_label(c));
             class = format!("adv_dialer expect={expect} admitted={admitted}");
@@ -198,7 +210,7 @@ fn judge(unit: &Value, o: &Obs) -> Judged {
         "adv_listener" => {
             let d = cfg_of(&unit["dialer"]);
             let c = unit["cert_name"].as_u64().unwrap() as usize;
-            let expect = c == d.0;
+            let expect = match c { 0..=2 => c == d.0, 7 => d.0 == 2, _ => false };
             let ctx = format!("[dialer primary {} alt {:?}; answering party presents a certificate for {}]", NAMES[d.0], d.1.map(|a| NAMES[a]), cert_label(c));
             class = format!("adv_listener expect={expect} got={} sni={:?}", o.connected.is_ok(), o.sni_seen.first());
             for s in &o.sni_seen {
@@ -230,6 +242,17 @@ fn verifier_layer(out: &mut UnitResult) {
     let pid = peer_id_of_key(5);
     for mask in 1u32..16 {
         let accepted: Vec<String> = (0..4).filter(|i| mask & (1 << i) != 0).map(|i| all[i].to_string()).collect();
+        // certificates that name a network in the subject common name only: the common name does
+        // not count
+        for (san, cn) in [(Some("zz"), "n1"), (None, "n1x"), (None, "N1")] {
+            let cert = crate::certs::ed25519_cert_with_cn(5, san, cn);
+            out.evaluations += 1;
+            let exp = san.map(|s| accepted.iter().any(|n| n == s)).unwrap_or(false);
+            if anemo::verif::crypto::verify_client_cert(&accepted, &cert, &[], now).is_ok() != exp {
+                out.violation("verifier-name-check", format!("verify_client_cert with accepted {accepted:?} and a certificate with alternative name {san:?} and common name {cn:?}: expected accepted={exp}"), json!({"layer":"verifier","accepted":accepted,"cert":"cn"}));
+            }
+            out.class(format!("verifier client exp={exp}"));
+        }
         // certificates that name no network: never acceptable, whatever the accepted names
         for ip_only in [false, true] {
             let cert = crate::certs::ed25519_cert_nameless(5, ip_only);
@@ -276,7 +299,7 @@ impl Check for C14 {
         CheckMeta {
             property: "C14",
             level: "exploration",
-            rule: "all 9x9 (primary, alternate) configurations of dialer and listener over three names, with and without identity pinning, both key orders; an adversarial dialer for every (claimed SNI in 4 names) x (certificate for each name, for no name at all, for an IP address only) x (listener configuration); an adversarial listener for every (certificate name) x (dialer configuration) recording the announced SNI; plus the certificate verifiers on every (accepted-name subset, certificate name, dialed name) triple; distinct = distinct (scenario kind, expected, observed)".into(),
+            rule: "all 9x9 (primary, alternate) configurations of dialer and listener over three names, with and without identity pinning, both key orders; an adversarial dialer for every (claimed SNI in 4 names) x (certificate for each name, for no name at all, for an IP address only, naming an accepted network only in the subject common name) x (listener configuration); an adversarial listener for every (certificate name) x (dialer configuration) recording the announced SNI; plus the certificate verifiers on every (accepted-name subset, certificate name, dialed name) triple; distinct = distinct (scenario kind, expected, observed)".into(),
             assumptions: vec!["three network names (one a proper prefix of another: n1, n1x, n3.example) plus one unknown name stand for all names".into()],
             exhaustive: true,
         }
